@@ -50,7 +50,9 @@ func dynProfile(preserve, bluegreen bool) Profile {
 	if bluegreen {
 		p.Ann = append(p.Ann, annChoice{"blue-green-deploy", []string{"group=blue=1,group=green=3", "group=blue=0,group=green=1"}},
 			// requests that name a group are sent to a server of that group: use-server rules, one per labeled server
-			annChoice{"blue-green-header", []string{"X-Server:group"}})
+			annChoice{"blue-green-header", []string{"X-Server:group"}},
+			// a backend that is only changed by reloads, next to backends that are changed at runtime
+			annChoice{"dynamic-scaling", []string{"false"}})
 	}
 	p.SvcAnn = nil
 	p.MaxIng = 4
